@@ -5,9 +5,6 @@ set_option linter.unusedVariables false
 namespace WD.ProofsObs
 open WD WD.Obs
 
-theorem TG.tm {s : State} {t : Thread} (h : TG s t) (hpc : epc t.pc = false) : TM t :=
-  ⟨fun e hk => (by rw [h.epcE e hk] at hpc; cases hpc), fun hi => h.disp (Or.inl hi)⟩
-
 theorem TG.iter_none {s : State} {t : Thread} (h : TG s t) (hpc : cbPc t.pc = false) (hj : t.pc ≠ .joinD) : t.iter = none := by
   cases hi : t.iter with
   | none => rfl
@@ -16,34 +13,58 @@ theorem TG.iter_none {s : State} {t : Thread} (h : TG s t) (hpc : cbPc t.pc = fa
     · rw [hpc] at h1; cases h1
     · exact absurd h1.1 hj
 
-theorem GQ.eLoop {s : State} (hQ : GQ s) {ti : Nat} {t : Thread} (ht : s.thread? ti = some t) (e : Eid)
-    (hk : t.kind = .emitter e) : GQ (eLoop s ti e) := by
-  have hT := hQ.thr ti t ht
-  have hi : t.iter = none := hT.iter_none (by have := hT.epcE e hk; cases hp : t.pc <;> simp [hp, epc, cbPc] at this ⊢)
-    (by have := hT.epcE e hk; cases hp : t.pc <;> simp [hp, epc] at this ⊢)
-  have hG := hQ.open ti
+/-- the stepping thread is a client or the dispatcher inside a callback: at a pc that is neither an emitter's nor one
+    of the dispatcher's own -/
+theorem TG.tm {s : State} {t : Thread} (h : TG s t) (hpc : epc t.pc = false) (hdj : djPc t.pc = false) : TM t :=
+  ⟨fun e hk => (by rw [h.epcE e hk] at hpc; cases hpc), fun hi => h.disp (Or.inl hi), fun hk => by
+    cases hi : t.iter with
+    | some x => rfl
+    | none => have := h.dj hk hi; rw [hdj] at this; cases this⟩
+
+theorem TG.ts {s : State} {t : Thread} (h : TG s t) (hd : t.pc ≠ .done) (hs : ∀ h0 w e, t.pc ≠ .schedStarted h0 w e) : TS s t :=
+  ⟨fun hk hS => h.sq hk hd hS, fun h0 w e hp => absurd hp (hs h0 w e)⟩
+
+/-- an emitter thread reaches its loop head -/
+theorem GX.eLoop {s : State} {ti : Nat} {t : Thread} (hG : GX s ti NoX) (ht : s.thread? ti = some t) (e : Eid)
+    (hk : t.kind = .emitter e) (hi : t.iter = none) (hep : epc t.pc = true)
+    (hobj : ∃ o, s.em? e = some o ∧ o.tidx.isSome = true) : GQ (eLoop s ti e) := by
   have mk : ∀ pc, epc pc = true → TG s { t with pc := pc } := by
     intro pc hp
-    refine ⟨?_, ?_, ?_, ?_, ?_, ?_⟩
-    · rintro (h | h)
-      · simp [hi] at h
-      · cases pc <;> simp [isDpc, epc] at h hp
-    · intro h; simp [hi] at h
-    · intro _ _; exact hp
-    · intro w e' h; cases pc <;> simp [epc] at h hp
-    · intro es fs h; cases pc <;> simp [epc] at h hp
-    · intro h0 w e' h; cases pc <;> simp [epc] at h hp
+    exact {
+      disp := by
+        rintro (h | h)
+        · simp [hi] at h
+        · cases pc <;> simp [isDpc, epc] at h hp
+      cb := fun h => by simp [hi] at h
+      epcE := fun _ _ => hp
+      epcO := fun _ => ⟨e, hk⟩
+      dj := fun h _ => by simp [hk] at h
+      joinU := fun w e' h => by cases pc <;> simp [epc] at h hp
+      joinA := fun es fs h => by cases pc <;> simp [epc] at h hp
+      sched := fun h0 w e' h => by cases pc <;> simp [epc] at h hp
+      emObj := fun e' h => by
+        have : e' = e := by
+          have h' : t.kind = .emitter e' := h
+          rw [hk] at h'; cases h'; rfl
+        subst this; exact hobj
+      startEs := fun es h => by cases pc <;> simp [epc] at h hp
+      regS := fun es fs h => by cases pc <;> simp [epc] at h hp
+      q1 := fun h _ => by cases pc <;> simp [epc] at h hp
+      sq := fun h _ _ => by simp [hk] at h
+      stopA := fun h => by cases pc <;> simp [epc] at h hp
+      stopJ := fun es h => by cases pc <;> simp [epc] at h hp }
+  have hpe : ∀ (pc : Pc) h0 w e', t.pc = .schedStarted h0 w e' → AliveOk s e' ∨ pc = .schedStarted h0 w e' := by
+    intro pc h0 w e' hp; rw [hp] at hep; cases hep
   unfold WD.Obs.eLoop
   split
-  · exact hQ
+  · rename_i hn
+    obtain ⟨o, ho, _⟩ := hobj
+    rw [ho] at hn; cases hn
   · split
-    · exact hG.closeUpd ht _ rfl (mk .done rfl)
+    · exact hG.closeUpd ht _ rfl (mk .done rfl) (hpe _) (fun _ hx => hx.elim)
     · split
-      · exact hG.closeUpd ht _ rfl (mk .eWait rfl)
-      · exact hG.closeUpd ht _ rfl (mk .eEmit rfl)
-
-theorem GX.toQ {s : State} {ti : Nat} {t : Thread} (hG : GX s ti) (ht : s.thread? ti = some t) (hT : TG s t) : GQ s :=
-  hG.closeSame ht hT
+      · exact hG.closeUpd ht _ rfl (mk .eWait rfl) (hpe _) (fun _ hx => hx.elim)
+      · exact hG.closeUpd ht _ rfl (mk .eEmit rfl) (hpe _) (fun _ hx => hx.elim)
 
 theorem GQ.stepX {s s' : State} {ti : Nat} (hQ : LQ s) (hQg : GQ s) (h : stepX s ti = some s') : GQ s' := by
   have A := allG FUEL
@@ -67,11 +88,14 @@ theorem GQ.stepX {s s' : State} {ti : Nat} (hQ : LQ s) (hQg : GQ s) (h : stepX s
         rw [depth_of_not_holds hp] at hO
         split at h
         · rename_i hk
-          exact A.nxt _ _ _ _ h ht hO ⟨fun e he => (by rw [hk] at he; cases he), fun hi => hTg.disp (Or.inl hi)⟩ hG
+          exact A.nxt _ _ _ _ h ht hO ⟨fun e he => (by rw [hk] at he; cases he), fun hi => hTg.disp (Or.inl hi),
+            fun hd => (by rw [hk] at hd; cases hd)⟩ (hTg.ts (by rw [hpc]; simp) (by rw [hpc]; simp)) hG
         · rename_i hk
-          exact D.1 _ _ _ h ht hk (hTg.iter_none (by rw [hpc]; rfl) (by rw [hpc]; simp)) hG
+          exact D.1 _ _ _ h ht hk (hTg.iter_none (by rw [hpc]; rfl) (by rw [hpc]; simp)) (fun h0 w e hp' => by rw [hpc] at hp'; cases hp')
+            (Or.inr (fun hS => hTg.sq hk (by rw [hpc]; simp) hS)) hG
         · rename_i e hk
-          cases h; exact hQg.eLoop ht e hk
+          cases h
+          exact hG.eLoop ht e hk (hTg.iter_none (by rw [hpc]; rfl) (by rw [hpc]; simp)) (by rw [hpc]; rfl) (hTg.emObj e hk)
       · -- acq
         rename_i op hpc
         have hn : s.lockOwner = none := by
@@ -79,63 +103,86 @@ theorem GQ.stepX {s s' : State} {ti : Nat} (hQ : LQ s) (hQg : GQ s) (h : stepX s
           cases ho : s.lockOwner <;> simp_all
         have hc : t.cur = some op := by have := hT.cur; rw [hpc] at this; exact this
         have hi := hQ.idepth_zero_of_free ht hn
-        refine A.lck _ _ _ _ _ h ht hc ?_ (hTg.tm (by rw [hpc]; rfl)) (hG.frame rfl rfl rfl (fun _ h => Or.inl h))
-        rw [hi]; exact hQ.take ti hn
+        refine A.lck _ _ _ _ _ h ht hc ?_ ?_ (hTg.tm (by rw [hpc]; rfl) (by rw [hpc]; rfl)) ?_ (hG.frame rfl rfl rfl rfl rfl rfl rfl rfl)
+        · rw [hi]; exact hQ.take ti hn
+        · intro hop; subst hop; exact hTg.stopA hpc
+        · exact (hTg.ts (by rw [hpc]; simp) (by rw [hpc]; simp)).frame rfl rfl rfl rfl rfl
       · -- schedStarted
         rename_i h0 w e hpc
         have hp : holdsPc t.pc = true := by rw [hpc]; rfl
         rw [depth_of_holds hp] at hO
         have hc := hT.cur; rw [hpc] at hc
-        exact A.sfin _ _ _ _ _ _ _ h ht hc hO (hTg.tm (by rw [hpc]; rfl)) hG (hTg.sched h0 w e hpc)
+        refine A.sfin _ _ _ _ _ _ _ h ht hc hO (hTg.tm (by rw [hpc]; rfl) (by rw [hpc]; rfl)) ?_ ?_ hG (hTg.sched h0 w e hpc)
+        · intro hk hS; exact hTg.sq hk (by rw [hpc]; simp) hS
+        · intro h1 w1 e1 hp1; rw [hpc] at hp1; cases hp1; exact Or.inl rfl
       · -- unschedJoin
         rename_i w e hpc
         have hp : holdsPc t.pc = true := by rw [hpc]; rfl
         rw [depth_of_holds hp] at hO
         have hc := hT.cur; rw [hpc] at hc
-        exact A.ufin _ _ _ _ _ h ht hc.1 hc.2 hO (hTg.tm (by rw [hpc]; rfl)) hG
+        exact A.ufin _ _ _ _ _ h ht hc.1 hc.2 hO (hTg.tm (by rw [hpc]; rfl) (by rw [hpc]; rfl))
+          (hTg.ts (by rw [hpc]; simp) (by rw [hpc]; simp)) hG
       · -- uallJoin (e :: rest)
         rename_i e rest b hpc
         have hp : holdsPc t.pc = true := by rw [hpc]; rfl
         rw [depth_of_holds hp] at hO
         have hc := hT.cur; rw [hpc] at hc
-        exact A.uajn _ _ _ _ _ _ h ht hc.1 hc.2 hO (hTg.tm (by rw [hpc]; rfl)) hG
-          (fun x hx => hTg.joinA _ _ hpc x (List.mem_cons_of_mem _ hx))
+        exact A.uajn _ _ _ _ _ _ h ht hc.1 hc.2 hO (fun hb => by subst hb; exact hTg.stopJ _ hpc)
+          (hTg.tm (by rw [hpc]; rfl) (by rw [hpc]; rfl)) (hTg.ts (by rw [hpc]; simp) (by rw [hpc]; simp)) hG
+          (fun x hx => hTg.joinA _ _ hpc x (List.mem_cons_of_mem _ hx)) (hTg.regS _ _ hpc)
       · -- uallJoin []
         rename_i b hpc
         have hp : holdsPc t.pc = true := by rw [hpc]; rfl
         rw [depth_of_holds hp] at hO
         have hc := hT.cur; rw [hpc] at hc
-        exact A.uajn _ _ _ _ _ _ h ht hc.1 hc.2 hO (hTg.tm (by rw [hpc]; rfl)) hG (fun x hx => by cases hx)
+        exact A.uajn _ _ _ _ _ _ h ht hc.1 hc.2 hO (fun hb => by subst hb; exact hTg.stopJ _ hpc)
+          (hTg.tm (by rw [hpc]; rfl) (by rw [hpc]; rfl)) (hTg.ts (by rw [hpc]; simp) (by rw [hpc]; simp)) hG
+          (fun x hx => by cases hx) (hTg.regS _ _ hpc)
       · -- startEm
         rename_i es hpc
         have hp : holdsPc t.pc = false := by rw [hpc]; rfl
         rw [depth_of_not_holds hp] at hO
         have hc := hT.cur; rw [hpc] at hc
-        exact A.stem _ _ _ _ _ h ht hc hO (hTg.tm (by rw [hpc]; rfl)) hG
+        exact A.stem _ _ _ _ _ h ht hc hO (hTg.tm (by rw [hpc]; rfl) (by rw [hpc]; rfl))
+          (hTg.ts (by rw [hpc]; simp) (by rw [hpc]; simp)) hG (hTg.startEs es hpc)
       · -- startD
         rename_i hpc
         have hp : holdsPc t.pc = false := by rw [hpc]; rfl
         rw [depth_of_not_holds hp] at hO
         have hc := hT.cur; rw [hpc] at hc
-        refine A.fin _ _ _ _ _ h ht hO ?_ (hTg.tm (by rw [hpc]; rfl)) hG
-        intro _ op' hc' h' w' hr
         have hc2 : t.cur = some Op.start := hc
-        rw [hc2] at hc'; cases hc'; simp [removes] at hr
+        refine A.fin _ _ _ _ _ h ht hO ?_ ?_ (hTg.tm (by rw [hpc]; rfl) (by rw [hpc]; rfl))
+          (hTg.ts (by rw [hpc]; simp) (by rw [hpc]; simp)) hG
+        · intro _ op' hc' h' w' hr
+          rw [hc2] at hc'; cases hc'; simp [removes] at hr
+        · intro _ hcs; rw [hc2] at hcs; cases hcs
       · -- joinD
         rename_i hpc
         have hp : holdsPc t.pc = false := by rw [hpc]; rfl
         rw [depth_of_not_holds hp] at hO
         have hc := hT.cur; rw [hpc] at hc
-        refine A.fin _ _ _ _ _ h ht hO ?_ (hTg.tm (by rw [hpc]; rfl)) hG
-        intro _ op' hc' h' w' hr
         have hc2 : t.cur = some Op.join := hc
-        rw [hc2] at hc'; cases hc'; simp [removes] at hr
+        refine A.fin _ _ _ _ _ h ht hO ?_ ?_ (hTg.tm (by rw [hpc]; rfl) (by rw [hpc]; rfl))
+          (hTg.ts (by rw [hpc]; simp) (by rw [hpc]; simp)) hG
+        · intro _ op' hc' h' w' hr
+          rw [hc2] at hc'; cases hc'; simp [removes] at hr
+        · intro _ hcs; rw [hc2] at hcs; cases hcs
       · -- dWait
         rename_i hpc
+        have hk : t.kind = .dispatcher := hTg.disp (Or.inr (by rw [hpc]; rfl))
         have ht2 := updThread_thread? (s := s) ti (fun t => { t with notified := false }) ht
         simp only [if_true] at ht2
-        exact D.2 _ _ _ h ht2 (hTg.disp (Or.inr (by rw [hpc]; rfl))) (hTg.iter_none (by rw [hpc]; rfl) (by rw [hpc]; simp))
-          (hG.updThread_same ti _ (fun t => ⟨rfl, rfl, rfl⟩))
+        have hG2 : GX (s.updThread ti (fun t => { t with notified := false })) ti NoX := by
+          rw [updThread_of_some _ ht]
+          exact hG.setThreadMine ht _ rfl rfl
+        refine D.2 _ _ _ h ht2 hk (hTg.iter_none (by rw [hpc]; rfl) (by rw [hpc]; simp)) ?_ ?_ hG2
+        · intro h0 w e hp'
+          have hp'' : t.pc = .schedStarted h0 w e := hp'
+          rw [hpc] at hp''; cases hp''
+        · intro hS
+          rw [updThread_hist] at hS
+          rw [updThread_queue']
+          exact (hTg.sq hk (by rw [hpc]; simp) hS).imp id (fun x => x.mono (KP.updThread _ _ _ (fun _ => rfl)))
       · -- dLock
         rename_i u w v hpc
         try simp only [] at h
@@ -147,19 +194,26 @@ theorem GQ.stepX {s s' : State} {ti : Nat} (hQ : LQ s) (hQg : GQ s) (h : stepX s
           split
           · exact (hQ.take ti hn).frame rfl rfl rfl rfl
           · exact hQ.take ti hn
-        have hG2 : GX (if (alookup w s.handlers).isNone then ({ s with lockOwner := some ti, lockCount := 1, handlers := ainsert w [] s.handlers } : State) else { s with lockOwner := some ti, lockCount := 1 }) ti := by
+        have hG2 : GX (if (alookup w s.handlers).isNone then ({ s with lockOwner := some ti, lockCount := 1, handlers := ainsert w [] s.handlers } : State) else { s with lockOwner := some ti, lockCount := 1 }) ti NoX := by
           split
-          · exact hG.frame rfl rfl rfl (fun _ h => Or.inl h)
-          · exact hG.frame rfl rfl rfl (fun _ h => Or.inl h)
+          · exact hG.frame rfl rfl rfl rfl rfl rfl rfl rfl
+          · exact hG.frame rfl rfl rfl rfl rfl rfl rfl rfl
+        have hS2 : TS (if (alookup w s.handlers).isNone then ({ s with lockOwner := some ti, lockCount := 1, handlers := ainsert w [] s.handlers } : State) else { s with lockOwner := some ti, lockCount := 1 }) t := by
+          have := hTg.ts (by rw [hpc]; simp) (by rw [hpc]; simp)
+          split
+          · exact this.frame rfl rfl rfl rfl rfl
+          · exact this.frame rfl rfl rfl rfl rfl
         have ht2 : (if (alookup w s.handlers).isNone then ({ s with lockOwner := some ti, lockCount := 1, handlers := ainsert w [] s.handlers } : State) else { s with lockOwner := some ti, lockCount := 1 }).thread? ti = some t := by
           split <;> exact ht
-        generalize (if (alookup w s.handlers).isNone then ({ s with lockOwner := some ti, lockCount := 1, handlers := ainsert w [] s.handlers } : State) else { s with lockOwner := some ti, lockCount := 1 }) = s2 at h hL2 ht2 hG2
+        generalize (if (alookup w s.handlers).isNone then ({ s with lockOwner := some ti, lockCount := 1, handlers := ainsert w [] s.handlers } : State) else { s with lockOwner := some ti, lockCount := 1 }) = s2 at h hL2 ht2 hG2 hS2
         have ht3 : (s2.log (.dispatch u w (s2.handlersOf w))).thread? ti = some t := by rw [log_thread?]; exact ht2
         rw [updThread_of_some _ ht3] at h
-        refine A.cit _ _ _ _ h (setThread_thread?_self _ ht3) ?_ ?_ ?_
+        refine A.cit _ _ _ _ h (setThread_thread?_self _ ht3) ?_ ?_ ?_ ?_
         · exact (hL2.log (.dispatch u w (s2.handlersOf w)) trivial (Or.inl rfl)).setThreadMine _
-        · exact ⟨fun e he => by simp [hk] at he, fun _ => hk⟩
-        · exact (hG2.log _).setThreadMine (t := t) ht3 _ rfl
+        · exact ⟨fun e he => by simp [hk] at he, fun _ => hk, fun _ => rfl⟩
+        · exact (hS2.frameLog (s' := s2.log (.dispatch u w (s2.handlersOf w))) rfl rfl rfl rfl _ rfl rfl).rel
+            (Rel.setThread (t := t) ht3 _ rfl) rfl rfl
+        · exact (hG2.log _ rfl (by simp [GoodAtS])).setThreadMine (t := t) ht3 _ rfl rfl
       · -- eEmit
         rename_i hpc
         split at h
@@ -172,18 +226,24 @@ theorem GQ.stepX {s s' : State} {ti : Nat} (hQ : LQ s) (hQg : GQ s) (h : stepX s
               obtain ⟨t', ht', e1, e2, e3, e4⟩ := putItem_thread? (fun u => QItem.ev u o.wid v) (fun u => Obs.enq o.wid v u) (Obs.drop o.wid v) ht1
               have hG1 := (hG.updEm e (fun o => { o with script := rest }) (fun o h => h) (fun o => rfl)).putItem
                 (fun u => QItem.ev u o.wid v) (fun u => Obs.enq o.wid v u) (Obs.drop o.wid v)
-              have hTg1 : TG ((s.updEm e (fun o => { o with script := rest })).putItem (fun u => QItem.ev u o.wid v) (fun u => Obs.enq o.wid v u) (Obs.drop o.wid v)) t' :=
-                ((hTg.of_same e1 e2 e4).mono (EmMono.updEm s e (fun o => { o with script := rest }) (fun o h => h)) (KP.of_eq (updEm_threads _ _ _))).mono (EmMono.of_eq (putItem_emObjs _ _ _ _)) (KP.putItem _ _ _ _)
-              exact (hG1.toQ ht' hTg1).eLoop ht' e (e4.trans hk)
+                (fun p u => ⟨by simp [GoodAtS], by simp [GoodAtS]⟩) (Or.inl (fun u => ⟨by simp, rfl, rfl⟩))
+              have hi : t.iter = none := hTg.iter_none (by rw [hpc]; rfl) (by rw [hpc]; simp)
+              refine hG1.eLoop ht' e (e4.trans hk) (e2.trans hi) (by rw [e1, hpc]; rfl) ?_
+              obtain ⟨y, hy, hty⟩ := hTg.emObj e hk
+              have hm1 := EmMono.updEm s e (fun o => { o with script := rest }) (fun o h => h) (fun o h => h)
+              obtain ⟨y1, hy1, _, hty1⟩ := hm1 e y hy
+              exact ⟨y1, by simpa [State.em?, putItem_emObjs] using hy1, hty1 hty⟩
             · cases h
               rename_i _ e hk _ _ _ _ _
-              exact hQg.eLoop ht e hk
+              exact hG.eLoop ht e hk (hTg.iter_none (by rw [hpc]; rfl) (by rw [hpc]; simp)) (by rw [hpc]; rfl) (hTg.emObj e hk)
           · cases h
         · cases h
       · -- eWait
+        rename_i hpc
         split at h
         · rename_i e hk
-          cases h; exact hQg.eLoop ht e hk
+          cases h
+          exact hG.eLoop ht e hk (hTg.iter_none (by rw [hpc]; rfl) (by rw [hpc]; simp)) (by rw [hpc]; rfl) (hTg.emObj e hk)
         · cases h
       · cases h
 
@@ -202,13 +262,24 @@ theorem GQ.init (clients : List (List Op)) (cbs : List (Hid × List (List Op))) 
     | none => simp [hz] at hj
     | some x => simp [hz] at hj; subst hj; exact ⟨rfl, rfl, rfl⟩
   constructor
-  · constructor
-    · intro e o ei h; simp [WD.Obs.init, State.em?] at h
-    · intro d h; simp [WD.Obs.init] at h
-    · intro e h; simp [WD.Obs.init] at h
+  · exact {
+      em := by intro e o ei h; simp [WD.Obs.init, State.em?] at h
+      didx := by intro d h; simp [WD.Obs.init] at h
+      reg := by intro e h; simp [WD.Obs.init] at h
+      alive := by intro e o h; simp [WD.Obs.init, State.em?] at h
+      l1 := by intro h; simp [WD.Obs.init] at h
+      l2 := by intro h; simp [WD.Obs.init] at h
+      goodS := Good.nil _
+      sq0 := by rintro (h | h) <;> simp [WD.Obs.init] at h
+      dset := by
+        rintro ⟨i, hi⟩
+        simp only [kinds, List.getElem?_map] at hi
+        cases hz : (WD.Obs.init clients cbs emit).threads[i]? with
+        | none => simp [hz] at hi
+        | some t => simp [hz, (key i t hz).2.2] at hi }
   · intro j t hj
     obtain ⟨h1, h2, h3⟩ := key j t hj
-    refine ⟨?_, ?_, ?_, ?_, ?_, ?_⟩ <;> simp [h1, h2, h3, isDpc, epc]
+    refine ⟨?_, ?_, ?_, ?_, ?_, ?_, ?_, ?_, ?_, ?_, ?_, ?_, ?_, ?_, ?_⟩ <;> simp [h1, h2, h3, isDpc, epc, djPc]
 
 /-- both invariants hold along every schedule all of whose steps complete -/
 theorem lgq_reach (clients : List (List Op)) (cbs : List (Hid × List (List Op))) (emit : List (Wid × List Nat))
@@ -241,7 +312,7 @@ theorem joined_emitter_done {s : State} (hG : GQ s) (hq : Quiescent s) {e : Eid}
   · simp [enabled, ht', hpc, hk, ho, hst] at hen
   · simp [State.threadDone, ht', hpc]
 
-/-- a thread that holds the lock can run, if anything is to run at all: it is never stuck behind someone else -/
+/-- the lock is free when nothing can run: whoever holds it could run -/
 theorem owner_not_stuck {s : State} (hL : LQ s) (hG : GQ s) (h2 : ¬ TwoD s) (hq : Quiescent s) : s.lockOwner = none := by
   cases ho : s.lockOwner with
   | none => rfl
@@ -313,5 +384,97 @@ theorem quiescent_idle {s : State} (hL : LQ s) (hG : GQ s) (h2 : ¬ TwoD s) (hq 
         have := joined_emitter_done hG hq hs hti
         simp [enabled, ht, hpc, hti, this] at hen
   | _ => simp [enabled, ht, hpc] at hen
+
+/-- C06, emitters: when nothing can run, an emitter thread that has not ended belongs to an emitter that is still
+    registered (scheduled and not stopped); with an empty registry every emitter thread has ended -/
+theorem quiescent_emitters {s : State} (hG : GQ s) (hq : Quiescent s) (ti : Nat) (t : Thread) (e : Eid)
+    (ht : s.thread? ti = some t) (hk : t.kind = .emitter e) (hnd : t.pc ≠ .done) : e ∈ s.regEm := by
+  have hT := hG.thr ti t ht
+  have hen := hq ti
+  obtain ⟨o, ho, hto⟩ := hT.emObj e hk
+  have hp := hT.epcE e hk
+  have hns : o.stopped = false := by
+    cases hpc : t.pc <;> simp [hpc, epc] at hp
+    · simp [enabled, ht, hpc] at hen
+    · simp [enabled, ht, hpc] at hen
+    · cases hst : o.stopped with
+      | false => rfl
+      | true => simp [enabled, ht, hpc, hk, ho, hst] at hen
+    · exact absurd hpc hnd
+  rcases hG.sg.alive e o ho hto with h | h | ⟨j, x, h0, w, hj, hpx⟩ | h
+  · rw [hns] at h; cases h
+  · exact h
+  · have hj' : s.thread? j = some x := hj
+    have := hq j
+    simp [enabled, hj', hpx] at this
+  · exact h.elim
+
+/-- C06, dispatcher: once a `stop()` has returned, a dispatcher thread that cannot run has ended -/
+theorem quiescent_dispatcher {s : State} (hG : GQ s) (h2 : ¬ TwoD s) (hq : Quiescent s)
+    (hstop : Obs.did .stop "ok" ∈ s.hist) (ti : Nat) (t : Thread) (ht : s.thread? ti = some t) (hk : t.kind = .dispatcher)
+    (hidle : idlePc t.pc = true) : t.pc = .done := by
+  have hT := hG.thr ti t ht
+  have hS : Sent s.hist := by
+    obtain ⟨p, q, hpq⟩ := List.append_of_mem hstop
+    have := hG.sg.goodS p _ q hpq rfl
+    rw [hpq]; exact this.mono _
+  cases hpc : t.pc with
+  | done => rfl
+  | dWait =>
+    exfalso
+    have hen := hq ti
+    have hnf : t.notified = false := by simpa [enabled, ht, hpc] using hen
+    have hq0 : s.queue = [] := (hT.q1 hpc hnf).resolve_right h2
+    have := (hT.sq hk (by rw [hpc]; simp) hS).resolve_right h2
+    rw [hq0] at this; cases this
+  | eWait =>
+    obtain ⟨e, he⟩ := hT.epcO (Or.inr hpc)
+    rw [hk] at he; cases he
+  | joinD =>
+    exfalso
+    cases hit : t.iter with
+    | none => have := hT.dj hk hit; rw [hpc] at this; cases this
+    | some x =>
+      rcases hT.cb (by simp [hit]) with h1 | h1
+      · rw [hpc] at h1; cases h1
+      · exact h2 h1.2
+  | _ => rw [hpc] at hidle; cases hidle
+
+end WD.ProofsObs
+
+namespace WD.ProofsObs
+open WD WD.Obs
+
+/-- C06, termination: once a `stop()` has returned and nothing has been scheduled since (the registry is empty), a state
+    in which nothing can run is one in which every thread — clients, the dispatcher, every emitter — has ended -/
+theorem stop_ends_everything {s : State} (hL : LQ s) (hG : GQ s) (h2 : ¬ TwoD s) (hq : Quiescent s)
+    (hstop : Obs.did .stop "ok" ∈ s.hist) (hreg : s.regEm = []) (ti : Nat) (t : Thread) (ht : s.thread? ti = some t) :
+    t.pc = .done := by
+  have hidle := quiescent_idle hL hG h2 hq ti t ht
+  have hT := hG.thr ti t ht
+  cases hkind : t.kind with
+  | dispatcher => exact quiescent_dispatcher hG h2 hq hstop ti t ht hkind hidle
+  | emitter e =>
+    cases hpc : t.pc with
+    | done => rfl
+    | _ =>
+      have := quiescent_emitters hG hq ti t e ht hkind (by rw [hpc]; simp)
+      rw [hreg] at this; cases this
+  | client =>
+    cases hpc : t.pc with
+    | done => rfl
+    | dWait => have := hT.disp (Or.inr (by rw [hpc]; rfl)); rw [hkind] at this; cases this
+    | eWait => obtain ⟨e, he⟩ := hT.epcO (Or.inr hpc); rw [hkind] at he; cases he
+    | joinD =>
+      exfalso
+      have hen := hq ti
+      cases hd : s.dIdx with
+      | none => simp [enabled, ht, hpc, hd] at hen
+      | some d =>
+        obtain ⟨td, htd, hkd⟩ := hG.sg.didx d hd
+        have htd' : s.thread? d = some td := htd
+        have hdone := quiescent_dispatcher hG h2 hq hstop d td htd' hkd (quiescent_idle hL hG h2 hq d td htd')
+        simp [enabled, ht, hpc, hd, State.threadDone, htd', hdone] at hen
+    | _ => rw [hpc] at hidle; cases hidle
 
 end WD.ProofsObs
